@@ -275,6 +275,18 @@ func (f *fields) delAt(i int) bool {
 	copy(a[i:], a[i+1:])
 	a[len(a)-1] = nil
 	f.a = a[:len(a)-1]
+
+	// the elements behind the removed one moved down: keep the index recorded
+	// in their context in sync with their new position
+	for j := i; j < len(f.a); j++ {
+		ctx := f.a[j].Context()
+		ctx.field = fmt.Sprintf("%d", j)
+		if sub, ok := f.a[j].(cfgSub); ok {
+			sub.c.ctx = ctx
+		} else {
+			f.a[j].SetContext(ctx)
+		}
+	}
 	return true
 }
 
